@@ -15,7 +15,7 @@ import (
 
 func init() {
 	suites["aside"] = suite{
-		rule: "C39: (1) script-level: acquireLock / setkey / delkey on the fake with own, foreign and missing placeholders and values vs the Lean script models; (2) end-to-end episodes: real rueidisaside clients (UseLuaLock on/off, typed client wrapper) over the fake server with client-side caching and invalidation pushes; concurrent Gets (goroutines) of up to three clients on one key with harness-controlled loaders (success, failure, values carrying the placeholder prefix), Del, key expiry, foreign writes, client death (liveness key expiry) and refresh, context cancellation of parked Gets; after every event the system runs to quiescence and the anonymous state (key kind, loading/parked counts, sorted results, loader count) is compared with the Lean automaton run to quiescence; '!results' oracle lines are judged by the specification (every returned value is a loader output or a stored value and never a placeholder); the harness itself flags two simultaneous loaders and placeholder leaks; non-trivial = distinct op within its episode prefix",
+		rule: "C39: (1) script-level: acquireLock / setkey / delkey on the fake with own, foreign and missing placeholders and values vs the Lean script models; (2) end-to-end episodes: real rueidisaside clients (UseLuaLock on/off, typed client wrapper) over the fake server with client-side caching and invalidation pushes; concurrent Gets (goroutines) of up to three clients on one key with harness-controlled loaders (success, failure, values carrying the placeholder prefix), a read/finish race (`get-race`: the holder stores its value exactly between a waiter's read of the placeholder and the waiter's next action, ordered by a hook in the fake), Del, key expiry, foreign writes, client death (liveness key expiry) and refresh, context cancellation of parked Gets; after every event the system runs to quiescence and the anonymous state (key kind, loading/parked counts, sorted results, loader count) is compared with the Lean automaton run to quiescence; '!results' oracle lines are judged by the specification (every returned value is a loader output or a stored value and never a placeholder); the harness itself flags two simultaneous loaders, placeholder leaks and lost wake-ups (a Get still parked when the key no longer holds a placeholder); non-trivial = distinct op within its episode prefix",
 		run:  runAside,
 		replay: func(c *Ctx, lines []string) {
 			ep := &asEp{}
@@ -150,6 +150,19 @@ func (e *asEp) judge(c *Ctx, line string) {
 	if n == 0 {
 		e.contested = false
 	}
+	e.srv.mu.Lock()
+	kv := e.srv.keys[asKey]
+	locked := kv != nil && strings.HasPrefix(kv.s, rueidisaside.PlaceholderPrefix)
+	e.srv.mu.Unlock()
+	parked := 0
+	for _, g := range e.gets {
+		if !g.done && !g.loading {
+			parked++
+		}
+	}
+	if parked > 0 && !locked {
+		c.Fail("aside:lost-wakeup", line, fmt.Sprintf("%d Get(s) still wait although the key holds no lock placeholder any more: the holder's result (or the release of the lock) never woke them", parked))
+	}
 	if n > 1 && !e.contested {
 		c.Fail("aside:two-loaders", line, fmt.Sprintf("%d loaders run at the same time for one key", n))
 	}
@@ -244,6 +257,66 @@ func (e *asEp) op(c *Ctx, line string) {
 			e.mu.Unlock()
 		}()
 		c.Hit("get")
+		emit()
+	case "get-race": // get-race c val: a Get on client c; right after its read of the key returned the holder's
+		// placeholder (before the Get does anything else) the holder's loader finishes with val and stores it
+		ci := int(w[1][0] - '0')
+		cc := e.client(ci)
+		fc := e.fcs[ci]
+		reached, resume := make(chan struct{}), make(chan struct{})
+		armed := true
+		e.srv.afterReply = func(cl *fakeClient, cmd []string, r reply) {
+			if armed && cl == fc && len(cmd) == 2 && strings.ToUpper(cmd[0]) == "GET" && cmd[1] == asKey &&
+				r.typ == '$' && strings.HasPrefix(r.s, rueidisaside.PlaceholderPrefix) {
+				armed = false
+				reached <- struct{}{}
+				<-resume
+			}
+		}
+		ctx, cancel := context.WithCancel(context.Background())
+		g := &asGet{client: ci, cancel: cancel, release: make(chan loadRes)}
+		e.mu.Lock()
+		e.gets = append(e.gets, g)
+		e.mu.Unlock()
+		go func() {
+			val, err := cc.Get(ctx, time.Hour, asKey, func(ctx context.Context, key string) (string, error) {
+				e.mu.Lock()
+				g.loading = true
+				e.loads++
+				e.mu.Unlock()
+				r := <-g.release
+				return r.val, r.err
+			})
+			e.mu.Lock()
+			g.done, g.val, g.err = true, val, err
+			e.mu.Unlock()
+		}()
+		select {
+		case <-reached:
+			// the waiter sits inside its read; now the holder finishes
+			e.mu.Lock()
+			var h *asGet
+			for _, x := range e.gets {
+				if x.loading {
+					h = x
+					break
+				}
+			}
+			if h != nil {
+				h.loading = false
+			}
+			e.mu.Unlock()
+			if h != nil {
+				h.release <- loadRes{val: unhx(w[2])}
+			}
+			settle()
+			close(resume)
+			c.Hit("get-race:interleaved")
+		case <-time.After(10 * time.Second):
+			c.Hit("get-race:no-placeholder")
+		}
+		armed = false
+		e.srv.afterReply = nil
 		emit()
 	case "load-ok", "load-err":
 		if w[0] == "load-err" {
@@ -377,6 +450,9 @@ func runAside(c *Ctx) {
 		{"reset lua=0", "get 0", "get 1", "cancel-parked", "expire", "load-ok " + hx("a"), "get 1", "load-ok " + hx("b"), "!results"},
 		{"reset lua=0", "put " + hx("stored"), "get 0", "get 1", "del", "get 0", "load-ok " + hx("rueidisid:user"), "load-ok " + hx("ok"), "!results"},
 		{"reset lua=1 typed=1", "get 0", "get 1", "load-ok " + hx("t"), "!results"},
+		{"reset lua=0", "get 0", "get-race 1 " + hx("raced"), "!results", "get 2"},
+		{"reset lua=1", "get 0", "get 1", "get-race 1 " + hx("r2"), "!results"},
+		{"reset lua=0", "get 0", "get-race 0 " + hx("same-client"), "!results"},
 		{"reset lua=0", "get 0", "get 0", "get 0", "death 0", "refresh 0", "load-ok " + hx("x"), "load-ok " + hx("y"), "!results"},
 	}
 	for _, sc := range fixed {
@@ -416,9 +492,18 @@ func runAside(c *Ctx) {
 					ci = waiterClient
 				}
 				ep.op(c, fmt.Sprintf("get %d", ci))
-			case x < 8:
+			case x < 7:
 				if loading > 0 {
 					ep.op(c, "load-ok "+hx(vals[r.IntN(len(vals))]))
+				}
+			case x == 7:
+				if loading == 1 && !ep.contested {
+					ci := waiterClient
+					if ci < 0 {
+						ci = (holder + 1) % 3
+						waiterClient = ci
+					}
+					ep.op(c, fmt.Sprintf("get-race %d %s", ci, hx(vals[r.IntN(4)])))
 				}
 			case x == 8:
 				if loading > 0 {
